@@ -1,7 +1,8 @@
 """C08 — ADM serialisation (AXML + CHNA) round-trips; generation is a fixed point; generated IDs are unique,
 well-formed and never the reserved silent-track UID.
 
-Lean side: models of time_format (parse/unparse), generate_ids and the CHNA entry codec, with theorems in
+Lean side: models of time_format (parse/unparse), generate_ids, the CHNA entry codec and the float leaf
+(FloatType / SecondsType: harness/c08_float.py, Earverif/Model/FloatText.lean), with theorems in
 Earverif/Props/C08.lean.  This module ties those models to the real code (leaf correspondence) and evaluates the
 property itself on generated documents with the real code only (harness/c08_docs.py).
 """
@@ -17,6 +18,7 @@ from . import c08_codec as codec
 from . import c08_classes as classes
 from . import c08_directed as directed
 from . import c08_refs as refs
+from . import c08_float as flt
 from .common import Spec, Driver, GEN, write_if_changed
 
 # ---------------------------------------------------------------------------------------------
@@ -379,7 +381,15 @@ class C08(Spec):
         "Earverif.AdmRefs." + t
         for t in ("lookup_eq_some_iff", "withoutDuplicates_cases", "dedupAll_dup", "withoutDuplicates_of_distinct",
                   "step_cases", "run_tasks", "avsPass_spec", "resolveChain_closed", "resolveChain_dangling",
-                  "rebuild_elements"))
+                  "rebuild_elements")) + tuple(
+        # round 7: the float leaf (FloatType / SecondsType) over exact binary64 values
+        "Earverif.C08." + t
+        for t in ("fmt5_parse_fmt5", "parse_fmt5_close", "parse_fmt5_exact_of_5dec", "parse_fmt5_idempotent",
+                  "fmt07_5_fin", "seconds_roundtrip", "seconds_exact_of_5dec", "floatCodec_refines",
+                  "float_leaf_excluded_points")) + tuple(
+        "Earverif.FloatText." + t
+        for t in ("rhe_nearest", "rhe_tie_even", "rhe_of_le_half", "rn53_nearest", "rn53_idem_pos", "core", "core_range",
+                  "roundtrip_master", "grid_core", "parseFloat_text", "parseFraction_numText"))
     trusted_base = (
         "models Earverif/Model/TimeFormat.lean, GenIds.lean, Chna.lean are hand transliterations of "
         "time_format.parse_time/unparse_time, generate_ids.generate_ids, AudioID.asByteArray and the row decoding in "
@@ -408,9 +418,19 @@ class C08(Spec):
         "parse_adm_elements leaves: IDRef arguments pending) are hand transliterations, tied on every run by the "
         "round-5 correspondence (real ADM objects described at id level by harness/c08_refs.py: the attribute table "
         "FIELDS there is trusted)",
-        "NOT modelled (outside every theorem, searched only): '{:.5f}' printing of arbitrary doubles and "
-        "float()/int()/Fraction() on spellings other than the ones the writer produces (values are integers on the "
-        "1e-5 grid; a gain read with gainUnit=dB is kept symbolic and not written), lxml parsing/serialisation, "
+        "model Earverif/Model/FloatText.lean (FloatType = TypeConvert(float, '{:.5f}'.format), the bare float(text) of "
+        "the hand-written handlers, SecondsType = TypeConvert(Fraction, '{:07.5f}'.format(float(t)))): a finite double is "
+        "a sign bit and an exact rational magnitude; '{:.5f}' = the exact binary value times 10^5 rounded half-even "
+        "(CPython dtoa mode 3), sign printed also for -0.0 and for negative values that round to zero, inf / nan; "
+        "'{:07.5f}' = zero padding after the sign; float(str) = PyFloat_FromString (ASCII blanks stripped, underscores "
+        "between digits, sign, inf / infinity / nan in any case, decimal with optional point and exponent, correctly "
+        "rounded to binary64 incl. subnormals and overflow to inf) on ASCII strings; float(Fraction) = correctly rounded "
+        "quotient (OverflowError modelled); Fraction(str) = fractions._RATIONAL_FORMAT without '_' separators; binary64 "
+        "rounding = Earverif.Ieee.rn53 inside the normal range — tied on every run by the float-leaf correspondence "
+        "through the real xml.FloatType / xml.SecondsType objects, bit-for-bit (doubles as 64-bit patterns)",
+        "NOT modelled (outside every theorem, searched only): int() on spellings other than optionally signed ASCII "
+        "digits, non-ASCII digits / blanks in float() and Fraction(), '_' separators in Fraction() (a gain read with "
+        "gainUnit=dB is kept symbolic and not written), lxml parsing/serialisation, "
         "namespace prefixes and bytes <-> str (the tree is abstract, no byte level; CHNA strings are 7-bit), "
         "attrs validators other than the ones stated (position / PolarPosition ranges, screen class vs centre "
         "position; they do not run on attribute assignment, so load_chna_chunk stores what it finds), "
@@ -428,6 +448,14 @@ class C08(Spec):
         "empty interaction range, jumpPosition flag false with an interpolationLength, referenceScreen None, "
         "ADM.version None with AXML) — these degenerate points are evaluated once per run and recorded, not asserted",
         "CHNA strings are 7-bit",
+        "float leaf: fmt5_parse_fmt5 / parse_fmt5_close / parse_fmt5_idempotent hold for every finite binary64 number "
+        "(IsDouble: the magnitude is its own correctly rounded binary64 value; both signs, -0.0, subnormals, the largest "
+        "double) with no magnitude bound; parse_fmt5_exact_of_5dec / seconds_exact_of_5dec / floatCodec_refines need the "
+        "decimal below 2^36 ~ 6.9e10 (sharp: float_leaf_excluded_points, 2^36 + 0.00001 is printed as ...00002); "
+        "seconds_roundtrip needs 0 <= t and float(t) finite (excluded point, kernel-checked and run on the real code: "
+        "a negative interpolationLength that rounds to zero is written -0.00000, read as Fraction(0), written 0.00000); "
+        "inf / nan are printed as inf / nan and read back, but are not finite numbers (outside the theorems); strings "
+        "are ASCII",
         "combinator model: handler keys pairwise distinct (checked on the extracted tables by handlers_wellformed); "
         "integer strings are optionally signed ASCII digit strings, floats are printed with exactly five decimals; "
         "DirectSpeakers / Objects screenEdgeLock values valid for their coordinate; Objects polar position and a "
@@ -460,6 +488,18 @@ class C08(Spec):
         "characters are outside the generators (str.upper is modelled on ASCII)",
     )
     rule = (
+        "float leaf: structured doubles (random bit patterns of ADM size and of any exponent, values within a few ulps "
+        "of k*1e-5 and of the ties (k+1/2)*1e-5, exact ties (odd multiples of 1/64), +-0.0, tiny negatives, subnormals, "
+        "neighbours of 2^33..2^37 / 2^44 / 2^53, short decimals, inf, nan) through the real xml.FloatType.dumps and "
+        "'{:07.5f}'.format vs Earverif.FloatText.fmt5 / fmt07_5 (exact text); numerals (printer output, repr and "
+        "exponent forms, exact decimal expansions of doubles and of midpoints between adjacent doubles, underscores, "
+        "blanks, inf / nan spellings, overflow / underflow / subnormal thresholds, mutated near-misses) through the real "
+        "xml.FloatType.loads vs parseFloat (64-bit pattern or rejection); Fractions through xml.SecondsType.dumps vs "
+        "secondsDumps and strings through xml.SecondsType.loads vs parseFraction; direct predicates on the real "
+        "converters only: the printed text is the five-decimal numeral nearest to the exact binary value (ties to even, "
+        "checked with Fraction), reading it back is within 0.5e-5 (1 + 1e-4) for |x| < 2^20 and 1e-5 always, printing "
+        "again gives the same text, a further parse gives the same bits, grid values k*1e-5 print as that decimal and "
+        "come back bit-identical, SecondsType likewise on non-negative Fractions; "
         "leaf correspondence: generated time strings (valid shapes + near-misses), times (decimal/fractional/"
         "non-terminating/over-precision/negative), element-count vectors around every hex-width boundary, CHNA rows "
         "(well-formed, wrong lengths, raw bytes), values and synthetic trees for every hand-written handler pair, and "
@@ -537,6 +577,9 @@ class C08(Spec):
         q = ctx.quick
         import time
         t0 = time.time()
+        self._corr_floats(ctx, drv, rng, 1500 if q else 40000)
+        ctx.notes.append("correspondence seconds: float leaf %.1f" % (time.time() - t0))
+        t0 = time.time()
         self._corr_times(ctx, drv, rng, 1500 if q else 20000)
         t1 = time.time()
         self._corr_ids(ctx, drv, rng, 40 if q else 300)
@@ -558,6 +601,129 @@ class C08(Spec):
         ctx.notes.append("correspondence seconds: times %.1f, ids %.1f, chna %.1f, combinators %.1f (started %.1f s "
                          "after check start)" % (t1 - t0, t2 - t1, t3 - t2, time.time() - t3, t0 - ctx.t0))
 
+    # ---- float leaf: FloatType / SecondsType ---------------------------------------------------
+    def _float_predicates(self, ctx, ft, st, doubles, grid, fractions):
+        """the property on the real converters only (no Lean): see harness/c08_float.py"""
+        for kind, x in doubles:
+            if x != x or x in (float("inf"), float("-inf")):
+                continue
+            try:
+                r = flt.float_predicate(ft, x)
+            except Exception as e:
+                r = ("float-converter-raises", {"exc": "%s: %s" % (type(e).__name__, e)})
+            ctx.count("predicate:float-leaf:" + kind)
+            if r is not None:
+                self._hit_capped(ctx, "float leaf: " + r[0], {"double": repr(x), "bits": flt.bits(x), "kind": kind},
+                                 r[1], ["c08-" + r[0]])
+        for k in grid:
+            try:
+                r = flt.grid_predicate(ft, k)
+            except Exception as e:
+                r = ("float-converter-raises", {"exc": "%s: %s" % (type(e).__name__, e)})
+            ctx.count("predicate:float-grid")
+            if r is not None:
+                self._hit_capped(ctx, "float leaf on the printable grid: " + r[0], {"k": k, "double": repr(k / 100000.0)},
+                                 r[1], ["c08-" + r[0]])
+        for kind, t in fractions:
+            if t < 0:
+                continue
+            try:
+                float(t)
+            except OverflowError:
+                continue
+            try:
+                r = flt.seconds_predicate(st, t)
+            except Exception as e:
+                r = ("seconds-converter-raises", {"exc": "%s: %s" % (type(e).__name__, e)})
+            ctx.count("predicate:seconds-leaf:" + kind)
+            if r is not None:
+                self._hit_capped(ctx, "SecondsType: " + r[0], {"fraction": "%d/%d" % (t.numerator, t.denominator)},
+                                 r[1], ["c08-" + r[0]])
+
+    def _grid_ints(self, rng, n):
+        out = [0, 1, -1, 5, 99999, 100000, 100001, -18000000, 18000000, 2 ** 36 * 10 ** 5 - 1, -(2 ** 36 * 10 ** 5 - 1)]
+        for _ in range(n):
+            k = rng.choice([rng.randint(-100, 100), rng.randint(-36000000, 36000000), rng.randint(-10 ** 10, 10 ** 10),
+                            rng.randint(-(2 ** 36 * 10 ** 5 - 1), 2 ** 36 * 10 ** 5 - 1)])
+            out.append(k)
+        return out
+
+    def _corr_floats(self, ctx, drv, rng, n):
+        """real xml.FloatType / xml.SecondsType (and the format strings they are built from) vs Earverif.FloatText"""
+        ft, st = flt.real_converters()
+        doubles = flt.gen_doubles(rng, n)
+        outs = drv.run(["ff " + flt.bits(x) for _, x in doubles] + ["f7 " + flt.bits(x) for _, x in doubles])
+        printed = []
+        for i, (kind, x) in enumerate(doubles):
+            p = flt.real_dumps(ft, x)
+            p7 = "{:07.5f}".format(x)
+            if not p.startswith("E:"):
+                printed.append(p)
+            ctx.count("corr:float-print:" + kind)
+            ctx.case(("ff", flt.bits(x)), x == x, sample={"FloatType.dumps": repr(x), "bits": flt.bits(x), "text": p})
+            if outs[i] != p:
+                ctx.disagree("xml.FloatType.dumps vs Earverif.FloatText.fmt5", {"double": repr(x), "bits": flt.bits(x)}, outs[i], p)
+            else:
+                ctx.validated()
+            if outs[i + len(doubles)] != p7:
+                ctx.disagree("'{:07.5f}'.format vs Earverif.FloatText.fmt07_5", {"double": repr(x), "bits": flt.bits(x)},
+                             outs[i + len(doubles)], p7)
+            else:
+                ctx.validated()
+        numerals = [(k, s) for k, s in flt.gen_numerals(rng, n, printed) if all(ord(c) < 128 for c in s)]
+        outs = drv.run(["fp " + flt.cps(s) for _, s in numerals])
+        for (kind, s), m in zip(numerals, outs):
+            p = flt.real_float_loads(ft, s)
+            ctx.count("corr:float-parse:%s:%s" % (kind, "rejected" if p == "E" else
+                                                   ("nan" if p == flt.NAN_BITS else "inf" if p[1:] == "ff0000000000000" else "finite")))
+            ctx.case(("fp", s), p != "E", sample={"FloatType.loads": s[:60], "bits": p} if p != "E" and len(s) < 60 else None)
+            if m != p:
+                ctx.disagree("xml.FloatType.loads vs Earverif.FloatText.parseFloat", {"string": s}, m, p)
+            else:
+                ctx.validated()
+        fracs = flt.gen_fractions(rng, n // 2)
+        outs = drv.run(["sd %d %d" % (t.numerator, t.denominator) for _, t in fracs])
+        sprinted = []
+        for (kind, t), m in zip(fracs, outs):
+            p = flt.real_dumps(st, t)
+            if p == "E:OverflowError":
+                p = "E"
+            elif not p.startswith("E:"):
+                sprinted.append(p)
+            ctx.count("corr:seconds-print:%s:%s" % (kind, "overflow" if p == "E" else "text"))
+            ctx.case(("sd", t.numerator, t.denominator), p != "E",
+                     sample={"SecondsType.dumps": "%d/%d" % (t.numerator, t.denominator) if t.denominator < 10 ** 20 else "...", "text": p})
+            if m != p:
+                ctx.disagree("xml.SecondsType.dumps vs Earverif.FloatText.secondsDumps",
+                             {"fraction": "%d/%d" % (t.numerator, t.denominator)}, m, p)
+            else:
+                ctx.validated()
+        fstrs = [(k, s) for k, s in flt.gen_fraction_strings(rng, n // 2, sprinted) if all(ord(c) < 128 for c in s)]
+        outs = drv.run(["sl " + flt.cps(s) for _, s in fstrs])
+        for (kind, s), m in zip(fstrs, outs):
+            p = flt.real_seconds_loads(st, s)
+            ctx.count("corr:seconds-parse:%s:%s" % (kind, "rejected" if p == "E" else "fraction"))
+            ctx.case(("sl", s), p != "E", sample={"SecondsType.loads": s[:60], "fraction": p} if p != "E" and len(s) < 60 else None)
+            if m != p:
+                ctx.disagree("xml.SecondsType.loads vs Earverif.FloatText.parseFraction", {"string": s}, m, p)
+            else:
+                ctx.validated()
+        # a small budget of the direct predicates on the same inputs
+        self._float_predicates(ctx, ft, st, doubles, self._grid_ints(rng, n // 3), fracs)
+
+    def _search_floats(self, ctx, n):
+        ft, st = flt.real_converters()
+        rng = ctx.rng
+        self._float_predicates(ctx, ft, st, flt.gen_doubles(rng, n), self._grid_ints(rng, n // 2), flt.gen_fractions(rng, n // 3))
+        # excluded point of seconds_roundtrip (theorem float_leaf_excluded_points), recorded from the real code
+        try:
+            s1 = st.dumps_func(Fraction(-1, 10 ** 9))
+            s2 = st.dumps_func(st.loads_func(s1))
+            ctx.count("excluded-point:SecondsType-negative-rounding-to-zero=%s->%s" % (s1, s2))
+        except Exception as e:
+            ctx.count("excluded-point:SecondsType-negative-rounding-to-zero=raises-" + type(e).__name__)
+
+    # ---- leaf correspondence: times ------------------------------------------------------------
     def _corr_times(self, ctx, drv, rng, n):
         from ear.fileio.adm.time_format import FractionalTime, parse_time, unparse_time
 
@@ -1387,6 +1553,8 @@ class C08(Spec):
         else:
             self._search_refs(ctx, 36 if deep else 18, 30 if deep else 14, 30 if deep else 14)
         ctx.notes.append("id / reference / CHNA-transfer predicates finished %.1f s after check start" % (time.time() - ctx.t0))
+        self._search_floats(ctx, 200000 if thorough else (60000 if deep else 12000))
+        ctx.notes.append("float-leaf predicates finished %.1f s after check start" % (time.time() - ctx.t0))
         self._excluded_points(ctx)
         self._excluded_points_refs(ctx)
 
@@ -1478,6 +1646,15 @@ class C08(Spec):
             from ear.fileio.adm.generate_ids import generate_ids
             generate_ids(adm)
 
+        def objects_block(**kw):
+            def fn(adm):
+                cf = adm.audioChannelFormats[-1]
+                cf.audioBlockFormats[:] = [AudioBlockFormatObjects(position=ObjectPolarPosition(0.0, 0.0, 1.0), **kw)]
+                cf.type = type(cf.type).Objects
+                from ear.fileio.adm.generate_ids import generate_ids
+                generate_ids(adm)
+            return fn
+
         def zero_offset(adm):
             adm.audioObjects[0].positionOffset = PolarPositionOffset()
 
@@ -1530,6 +1707,12 @@ class C08(Spec):
             adm.audioTrackUIDs[0].audioChannelFormat = adm.audioChannelFormats[0]
 
         for name, fn in [("jumpPosition-flag-false-with-interpolationLength", jp), ("all-zero-positionOffset", zero_offset),
+                         # floats off the printable grid (the text is a fixed point by fmt5_parse_fmt5; the value is only
+                         # equal "as printed"; a value that prints like the default is elided by the second generation)
+                         ("off-grid-float-gain-0.123456789", objects_block(gain=0.123456789)),
+                         ("off-grid-float-printing-like-default-width-1e-7", objects_block(width=1e-7)),
+                         ("negative-interpolationLength-rounding-to-zero",
+                          objects_block(jumpPosition=JumpPosition(flag=True, interpolationLength=Fraction(-1, 10 ** 9)))),
                          ("empty-gainInteractionRange", empty_range), ("empty-positionInteractionRange", empty_pos_range),
                          ("referenceScreen-None", no_screen),
                          ("duplicate-encodePackFormats", dup_encode), ("duration-without-rtime", duration_only),
@@ -1577,22 +1760,41 @@ REGISTRY = dict(
     "resolve_then_ids_roundtrip: write -> parse gives back the same ids in every IDRef argument, composed with "
     "C08_roundtrip_model, hence reference structure is preserved by write -> parse -> resolve; "
     "duplicate_across_classes_not_rejected records that the same id in two classes is accepted). C08_partial is the "
-    "conjunction. NOT proved, only searched: five-decimal printing / reading of arbitrary doubles, lxml and the byte "
-    "level of AXML (the tree is abstract), attrs validators — covered by generated documents over every element "
-    "class and optional attribute for both versions run through the real write/read pipeline (equivalence, byte "
-    "fixed point, CHNA transfer, ID checks, duplicate / dangling rejection).",
+    "conjunction of (1)-(5). (6) the float leaf (Model/FloatText.lean: '{:.5f}'.format / float() of FloatType and of "
+    "the hand-written handlers, '{:07.5f}'.format(float(t)) / Fraction() of SecondsType, over exact binary64 values "
+    "with IEEE round-to-nearest-even, proved from the nearest-value property of the rounding, no enumeration): "
+    "Earverif.C08.fmt5_parse_fmt5 — for EVERY finite double (both signs, -0.0, subnormals, up to the largest double; no "
+    "magnitude bound is needed) print(parse(print x)) = print x, which is what 'generating XML again reproduces the "
+    "same bytes' needs of a float leaf; parse_fmt5_close — |parse(print x) - x| <= 0.5e-5 + (|x| + 0.5e-5) 2^-53 and "
+    "<= 1e-5 ('numbers as printed to five decimals'; the rounding term is needed: 2^35 + 2^-16 comes back 2^-17 away); "
+    "parse_fmt5_exact_of_5dec — the double nearest to a decimal k/10^5 < 2^36 is printed as exactly that decimal and "
+    "read back bit-identical (sharp: 2^36 + 0.00001 is printed ...00002); parse_fmt5_idempotent — the value read back "
+    "is reproduced by every further print / parse, unconditionally; fmt07_5_fin ('{:07.5f}' never pads a finite "
+    "number); seconds_roundtrip / seconds_exact_of_5dec for non-negative Fractions (a negative value rounding to zero "
+    "is a kernel-checked excluded point: -0.00000 -> Fraction(0) -> 0.00000); floatCodec_refines — the printable-grid "
+    "float codec of the handler-table model (Leaf.num k, used by handlers_codec_roundtrip and every class theorem) "
+    "emits exactly the text of the real FloatType for the double nearest to k/10^5 and the real loads maps it back to "
+    "that double (|k|/10^5 < 2^36). NOT proved, only searched: lxml and the byte level of AXML (the tree is abstract), "
+    "attrs validators, documents with floats OFF the 1e-5 grid as a whole (leaf text is a fixed point, but a value "
+    "that prints like a default, e.g. width 1e-7, is written once and elided by the second generation: recorded as "
+    "excluded point) — covered by generated documents over every element class and optional attribute for both "
+    "versions run through the real write/read pipeline (equivalence, byte fixed point, CHNA transfer, ID checks, "
+    "duplicate / dangling rejection).",
     note="Trusted: Lean kernel; hand transliterations of time_format / generate_ids / CHNA row codec / xml.py "
     "(combinators, all handler pairs, element classes) / chna.py / adm.py id map and lazy_lookup_references of every "
-    "element class + correspondence harness (real ElementParser.parse/to_xml, real "
+    "element class / CPython's '{:.5f}' (dtoa mode 3), float(str) (strtod grammar + correct rounding) and "
+    "Fraction(str) as modelled in Model/FloatText.lean with the IEEE rounding model Model/Ieee.lean + correspondence harness (real ElementParser.parse/to_xml, real "
     "handler functions and whole-element parse+to_xml vs the Lean driver on synthetic trees, on trees written for "
     "generated documents and on randomly edited copies); the table extractor; Python "
     "Fraction/Decimal/str.format/struct semantics. Quantifier limits: t < 100 h, ASCII digits, <= 0xEFFF elements per "
-    "top-level kind, <= 0xFF track formats per stream, printable-grid values; degenerate composite values (all-zero "
+    "top-level kind, <= 0xFF track formats per stream, printable-grid values at document level (the float leaf "
+    "theorems hold for all finite doubles; grid statements below 2^36); degenerate composite values (all-zero "
     "positionOffset, empty interaction ranges, jumpPosition flag false with interpolationLength, referenceScreen "
     "None, channel format without block formats, coefficient without input channel, BS.2076-2 features in a "
     "BS.2076-1 document) are stated as hypotheses / excluded-point theorems and recorded from the real code on "
     "every run, not asserted.",
-    technique="Lean 4 proofs about codec models (long-division decimal expansion, injective min-width hex formatter, "
+    technique="Lean 4 proofs about codec models (binary64 rounding on exact rationals: nearest-value and "
+    "ties-to-even argument for the five-decimal printer, long-division decimal expansion, injective min-width hex formatter, "
     "byte layout, dictionary-of-handlers parser with loop invariants, generic handler shapes (single / list / xpath) "
     "with framed specifications, nested parsers composed through class constructors, regenerated tables decided by "
     "the kernel) + differential correspondence with the real functions + generated-document search on the real "
